@@ -667,7 +667,36 @@ func c14(c *Ctx) {
 						return true
 					}
 					se, ok := ast.Unparen(rs.X).(*ast.SelectorExpr)
-					if !ok || astx.FieldSel(info, se) != f.fChannels {
+					if !ok {
+						return true
+					}
+					// every channel of the network, or the membership set of the session that is being
+					// re-registered (the value stored into i.nicks in this function): equal to the set of
+					// channels listing the session as long as membership is symmetric (M1).
+					own := false
+					if astx.FieldSel(info, se) == f.fSChannels {
+						if id, ok := ast.Unparen(se.X).(*ast.Ident); ok {
+							ast.Inspect(fi.Body(), func(m ast.Node) bool {
+								as, ok := m.(*ast.AssignStmt)
+								if !ok || len(as.Lhs) != 1 || len(as.Rhs) != 1 {
+									return true
+								}
+								ie, ok := ast.Unparen(as.Lhs[0]).(*ast.IndexExpr)
+								if !ok {
+									return true
+								}
+								ms, ok := ast.Unparen(ie.X).(*ast.SelectorExpr)
+								if !ok || astx.FieldSel(info, ms) != f.fNicks {
+									return true
+								}
+								if vid, ok := ast.Unparen(as.Rhs[0]).(*ast.Ident); ok && astx.Obj(info, vid) != nil && astx.Obj(info, vid) == astx.Obj(info, id) {
+									own = true
+								}
+								return true
+							})
+						}
+					}
+					if astx.FieldSel(info, se) != f.fChannels && !own {
 						return true
 					}
 					ins, del := false, false
